@@ -578,7 +578,7 @@ def run_shard(spec, acc):
                             spec['seed'])
     # system-level companion: queue evaluations on real repositories
     from vf.world import c05_world
-    c05_world.run(spec, acc, 2 if tier == 'quick' else 20)
+    c05_world.run(spec, acc, 3 if tier == 'quick' else 24)
     sl = SLICES[tier]
     last = (None, None)
     for j, (gi, gr, mode, start, stop) in enumerate(units(tier)):
